@@ -309,10 +309,19 @@ def _global_sampler(name):
                 return meth(*args, **kwargs)
         _yield(c)
         res = real(*args, **kwargs)
+        if name == "randint":
+            low = args[0] if args else kwargs.get("low")
+            high = args[1] if len(args) > 1 else kwargs.get("high")
+            size = args[2] if len(args) > 2 else kwargs.get("size")
+            if high is None:
+                low, high = 0, low
+            logged = (int(low), int(high), None if size is None else repr(size))
+        else:
+            logged = tuple(a if isinstance(a, (int, float)) else type(a).__name__ for a in args)
         c.entropy.note(
             c,
             "global." + name,
-            tuple(a if isinstance(a, (int, float)) else type(a).__name__ for a in args),
+            logged,
             res if res is not None else (args[0] if args else None),
         )
         return res
